@@ -131,13 +131,21 @@ Definition be_apply (e : env) (st : state) (paths : list Z) (oldset newset : Z) 
     let '(s2, t2) := run (exact_step e) s1 (map (fun p => mkU p newset) (rev paths)) in
     (s2, t1 ++ t2).
 
+(* recoverCPUSetForBECPUManager / recoverCPUSetIfNeed: ONE pass, the recovered besteffort cpuset
+   to every path in list order (besteffort root, pods, then containers) through
+   UpdateBatch(cacheable = true) *)
+Definition rec_apply (e : env) (st : state) (paths : list Z) (newset : Z) : state * list write :=
+  run (exact_step e) st (map (fun p => mkU p newset) paths).
+
 (* ---------- histories ---------- *)
 Inductive op :=
 | OBatch (levels : list (list updater))   (* one LeveledUpdateBatch call *)
 | OExpire (key : Z)                       (* the cache entry expires / is older than the force-update interval *)
-| OBe (paths : list Z) (old : option Z) (new : Z).
+| OBe (paths : list Z) (old : option Z) (new : Z)
     (* one applyCPUSetWithNonePolicy call; [old = None]: oldCPUSet is the current cpuset of the
        first path (the BE root), which is what adjustByCPUSet passes *)
+| ORec (paths : list Z) (new : Z).
+    (* one recoverCPUSetForBECPUManager / recoverCPUSetIfNeed call *)
 
 Definition be_old (fs : fmap) (paths : list Z) (old : option Z) : Z :=
   match old with Some o => o | None => get fs (hd 0 paths) end.
@@ -147,6 +155,7 @@ Definition step_op (e : env) (st : state) (o : op) : state * list write :=
   | OBatch ls => leveled_update e st ls
   | OExpire k => (mkSt (sfs st) (del (scache st) k), [])
   | OBe paths old new => be_apply e st paths (be_old (sfs st) paths old) new
+  | ORec paths new => rec_apply e st paths new
   end.
 
 (* ---------- what the property speaks about ---------- *)
